@@ -214,7 +214,7 @@ func TestInlinerSmoke(t *testing.T) {
 		"a.name = \"x\"",           // variadic loop unrolled with the element substituted
 		"b.name = \"x\"",
 		"a.n += 2",                 // closure expanded with both arguments substituted
-		"break inlonce",            // a search loop with a return inside is expanded in early mode
+		"s.byName(a.name)",         // a query with a search loop stays a call (postcondition instead)
 	} {
 		if !strings.Contains(body, want) {
 			t.Errorf("expected %q in the expanded Caller:\n%s", want, body)
